@@ -216,6 +216,11 @@ class Programs(Family):
         if tier != "quick":
             for i, seq in enumerate(itertools.product(range(len(PROGRAM_OPS)), repeat=3)):
                 if i % 11 == 0:
+                    names = [PROGRAM_OPS[j][1]["op"] if isinstance(PROGRAM_OPS[j][1], dict) else PROGRAM_OPS[j][1] for j in seq]
+                    if names[0] == "repeat" and names[1] == "integral_match" and names[2] == "normalize_y":
+                        # min/max over 8+ matched values: ordering queries between roots of quadratics, each one
+                        # a solver timeout (measured: 32 paths in 1750 s); (integral_match, normalize_y) stays in k = 2
+                        continue
                     out.append({"L": 4, "seq": list(seq)})
         return out
 
